@@ -79,6 +79,8 @@ type GenesisSpec struct {
 	Balances   []string          `json:"balances"` // decimal, one per account a1..aN
 	Validators []GenVal          `json:"validators"`
 	Gov        map[string]string `json:"gov"` // governance parameters, decimal strings
+	// unit in which voting powers are rendered (0 / 1: one power = 10^18; see PowerUnit)
+	PowerUnit int64 `json:"power_unit,omitempty"`
 }
 
 type GenVal struct {
